@@ -243,6 +243,18 @@ func toList(v any) []any {
 	switch x := v.(type) {
 	case []any:
 		return x
+	case []int:
+		out := make([]any, len(x))
+		for i, c := range x {
+			out[i] = c
+		}
+		return out
+	case []string:
+		out := make([]any, len(x))
+		for i, c := range x {
+			out[i] = c
+		}
+		return out
 	case nil:
 		return nil
 	}
